@@ -110,7 +110,8 @@ def mk_doc(ctx: Ctx, allow: set[str]):
     d = specgen.generate(rng, allow=allow, prof={"ops": (2, 7), "p_param": 0.8, "p_stream": 0.25, "stream_kinds": ["sse", "binary"],
                                                  "p_multi_media": 0.0 if "multi_request_media" not in allow else 0.5,
                                                  "opid_shapes": True, "ntags": 3,
-                                                 "p_errors": 0.6, "p_error_stream": 0.35})
+                                                 "p_errors": 0.6, "p_error_stream": 0.35,
+                                                 "p_multi_response_media": 0.2, "json_media_variants": True, "p_nullable_response": 0.2})
     # tag spelling variants: rewrite some tags
     if rng.random() < 0.4:
         for path, item in d.doc["paths"].items():
